@@ -2,7 +2,7 @@
    order-independent.  Property theorems only; each is closed by [exact] of a
    lemma proved in C14/Lemmas.v or C14/SmallScope.v and followed by its assumptions. *)
 From Coq Require Import ZArith List Bool.
-From V Require Import C14.Model C14.Laws C14.Lemmas C14.Scratch.
+From V Require Import C14.Model C14.Laws C14.Lemmas C14.Scratch C14.Recover.
 From Coq Require Import Permutation.
 Import ListNotations.
 Open Scope Z_scope.
@@ -48,6 +48,33 @@ Theorem C14_allocated_hypernode_is_lca : forall hn prev chosen,
   new_allocated hn prev chosen = get_lca hn prev (Some chosen).
 Proof. exact allocated_hypernode_is_lca. Qed.
 Print Assumptions C14_allocated_hypernode_is_lca.
+
+(* --- recovery of the AllocatedHyperNode at session open (recoverAllocatedHyperNode): the
+   HyperNode recovered for a sub-job holds every node that hosts one of its tasks in an
+   allocated status (Bound, Binding, Running, Allocated) and no HyperNode of a lower tier
+   does; nothing is recovered only if there is no such task or no HyperNode holds them all --- *)
+Theorem C14_recover_sub_spec : forall hn real nodes h,
+  recover_sub hn real nodes = Some h ->
+  covers_all real h nodes = true /\
+  exists i, In (h, i) hn /\
+    forall k i', In (k, i') hn -> covers_all real k nodes = true -> i_tier i <= i_tier i'.
+Proof. exact recover_sub_spec. Qed.
+Print Assumptions C14_recover_sub_spec.
+
+Theorem C14_recover_sub_none : forall hn real nodes,
+  recover_sub hn real nodes = None ->
+  nodes = [] \/ forall ki, In ki hn -> covers_all real (fst ki) nodes = false.
+Proof. exact recover_sub_none. Qed.
+Print Assumptions C14_recover_sub_none.
+
+(* the HyperNode recovered for the job is an ancestor-or-self of every sub-job's recovered
+   HyperNode and the lowest such (for every parent function; uses C14_lca_correct) *)
+Theorem C14_recover_job_spec : forall par fuel subs r stop,
+  lca_fold (lca_gen par fuel) subs = Some (Some r, stop) ->
+  (forall h, In (Some h) subs -> anc par h r) /\
+  (forall c, (forall h, In (Some h) subs -> anc par h c) -> anc par r c).
+Proof. exact recover_job_spec. Qed.
+Print Assumptions C14_recover_job_spec.
 
 (* --- the view, UNBOUNDED (any number of HyperNodes, tiers, members): for every set of objects
    with exact-match members that arrives leaf-first (each object after all its HyperNode
